@@ -12,7 +12,34 @@ import ast
 from .astutil import unparse
 
 
+_FLIP = {ast.Gt: ast.Lt, ast.GtE: ast.LtE}
+
+
+def _canon(node):
+    """copy of an expression in which every NESTED single comparison is oriented canonically (a > b -> b < a; operands of
+    == != is / is not sorted by text), so that `any(x == 0 for …)` and `any(0 == x for …)` give the same term"""
+    if isinstance(node, list):
+        return [_canon(x) for x in node]
+    if not isinstance(node, ast.AST):
+        return node
+    new = node.__class__()
+    for f in node._fields:
+        if hasattr(node, f):
+            setattr(new, f, _canon(getattr(node, f)))
+    if isinstance(new, ast.Compare) and len(new.ops) == 1:
+        op = new.ops[0]
+        if type(op) in _FLIP:
+            new.left, new.comparators, new.ops = new.comparators[0], [new.left], [_FLIP[type(op)]()]
+        elif isinstance(op, (ast.Eq, ast.NotEq, ast.Is, ast.IsNot)):
+            a, b = new.left, new.comparators[0]
+            if unparse(b) < unparse(a):
+                new.left, new.comparators = b, [a]
+    return new
+
+
 def _txt(node):
+    if any(isinstance(n, ast.Compare) for n in ast.walk(node)):
+        return unparse(_canon(node))
     return unparse(node)
 
 
